@@ -232,9 +232,9 @@ def lib_paths(gen_text):
     return out
 
 
-def run_unit(unit_path, prop, tier, seed):
+def run_unit(unit_path, prop, tier, seed, tag=None):
     name = os.path.splitext(os.path.basename(unit_path))[0]
-    gen_dir = os.path.join(GEN, prop)
+    gen_dir = os.path.join(GEN, prop if not tag else '%s-%s' % (prop, tag))
     os.makedirs(gen_dir, exist_ok=True)
     out_path = os.path.join(gen_dir, name + '.rs')
     t0 = time.time()
@@ -253,11 +253,18 @@ def run_unit(unit_path, prop, tier, seed):
     block_props = {b['name']: b['props'] for b in rep['blocks']}
     for e in rep['lost']:
         u['undecided'].append({'reason': 'lost-anchor', 'detail': e})
-    extra = []
-    if tier == 'thorough':
-        extra = ['--rlimit', '40', '--smt-option', 'smt.random_seed=%d' % (seed % 1000)]
-    r = sh(verus_cmd(out_path, extra), cwd=gen_dir)
+    r = sh(verus_cmd(out_path), cwd=gen_dir)
     pv = parse_verus(r.stdout, r.stderr)
+    if tier == 'thorough' and not tag:
+        # stability probe (never deciding): the same file under another solver seed and a 4x rlimit
+        r2 = sh(verus_cmd(out_path, ['--rlimit', '40', '--smt-option', 'smt.random_seed=%d' % (seed % 1000)]), cwd=gen_dir)
+        pv2 = parse_verus(r2.stdout, r2.stderr)
+        v1 = (pv['json'] or {}).get('verification-results', {})
+        v2 = (pv2['json'] or {}).get('verification-results', {})
+        u['stability'] = {'seed': seed % 1000, 'rlimit': 40, 'same_verdict': (v1.get('verified'), v1.get('errors')) == (v2.get('verified'), v2.get('errors')),
+                          'verified': v2.get('verified'), 'errors': v2.get('errors'),
+                          'slow_functions': [f['function'] for mt in (pv2['json'] or {}).get('times-ms', {}).get('smt', {}).get('smt-run-module-times', [])
+                                             for f in mt.get('function-breakdown', []) if f.get('time', 0) > 10000]}
     # labelled clauses of this property in the generated text
     for i, ln in enumerate(gen_lines):
         for m in LABEL.finditer(ln):
@@ -367,24 +374,38 @@ def main():
     if '--tier' in args:
         tier = args[args.index('--tier') + 1]
     seed = int(os.environ.get('VERIF_SEED', '0') or 0)
+    tag = args[args.index('--tag') + 1] if '--tag' in args else None
+    if '--src' in args:  # self-test: verify a scratch copy of the sources (a mutant); never writes evidence
+        extract.REPO_SRC = args[args.index('--src') + 1]
+    no_evidence = '--no-evidence' in args or '--src' in args
     t0 = time.time()
     os.makedirs(GEN, exist_ok=True)
     os.makedirs(REPLAY, exist_ok=True)
-    for old in glob.glob(os.path.join(REPLAY, prop + '-*.json')):
+    for old in (glob.glob(os.path.join(REPLAY, prop + '-*.json')) if not no_evidence else []):
         os.remove(old)
     units = units_for(prop)
     results = []
     with cf.ThreadPoolExecutor(max_workers=8) as ex:
-        futs = [ex.submit(run_unit, p, prop, tier, seed) for p in units]
+        futs = [ex.submit(run_unit, p, prop, tier, seed, tag) for p in units]
         for f in futs:
             results.append(f.result())
     # extras declared by the property (kani harnesses, witness search): vtool/extras.py
     extras = {}
-    try:
-        import extras as extras_mod
-        extras = extras_mod.run(prop, tier, seed, results)
-    except ImportError:
-        pass
+    if not no_evidence:
+        try:
+            import extras as extras_mod
+            extras = extras_mod.run(prop, tier, seed, results)
+        except ImportError:
+            pass
+    if tier == 'thorough' and not no_evidence:
+        try:
+            import selftest
+            st = selftest.run(prop)
+            extras.setdefault('report', {})['mutant_selftest'] = st
+            for w in st.get('not_rejected', []):
+                extras.setdefault('undecided', []).append({'reason': 'weak-contract', 'unit': 'selftest', 'detail': 'mutant %s still verifies' % w})
+        except ImportError:
+            pass
     known = load_known()
     violations = []
     known_hits = []
@@ -425,7 +446,8 @@ def main():
         body = {'property': prop, 'obligation': v['label'], 'unit': v.get('unit'), 'verifier_output': v.get('failure'),
                 'witness': v.get('witness') or witness, 'how_to_replay': 'python3 vtool/check.py %s --replay %s' % (prop, os.path.relpath(rp, ROOT)),
                 'note': 'Verus gives no model; the witness (if any) comes from running the real crate on the corpus, see vtool/replay'}
-        json.dump(body, open(rp, 'w'), indent=1)
+        if not no_evidence:
+            json.dump(body, open(rp, 'w'), indent=1)
         replay_paths.append(rp)
         w = body['witness']
         lines.append('VIOLATION property=%s replay=%s obligation=%s%s' % (prop, rp, v['label'], '' if w else ' no-failing-input-found'))
@@ -476,7 +498,7 @@ def main():
             'samples': samples[:12],
             'functions_under_contract': fn_under_contract,
             'units': [{'unit': u['unit'], 'verus_verified': u.get('verified'), 'verus_errors': u.get('errors'), 'solver_ms': u.get('solver_ms'),
-                       'total_ms': u.get('total_ms'), 'functions': u['functions'], 'vacuity': u['vacuity'],
+                       'total_ms': u.get('total_ms'), 'functions': u['functions'], 'vacuity': u['vacuity'], 'stability': u.get('stability'),
                        'extraction': {k: v for k, v in u['extraction'].items() if k != 'blocks'}} for u in results],
             'back_end': 'verus 0.2026.09.13 / z3 (bundled)' + extras.get('back_end', ''),
             'extras': extras.get('report', {}),
@@ -490,6 +512,10 @@ def main():
         'wall_s': round(time.time() - t0, 2),
         'violations': len(violations),
     }
+    if no_evidence:
+        print(json.dumps({'status': status, 'violations': [{'label': v['label'], 'message': (v.get('failure') or {}).get('message')} for v in violations],
+                          'undecided': [{'reason': u['reason'], 'detail': u.get('detail', '')[:200]} for u in undecided]}))
+        return status
     os.makedirs(EVID, exist_ok=True)
     json.dump(ev, open(os.path.join(EVID, prop + '.json'), 'w'), indent=1)
     for ln in lines:
